@@ -44,6 +44,9 @@ JudgeHalt(e) ==
   LET E == e.events
       idx(nm) == { i \in 1..Len(E) : E[i].name = nm }
       pubBefore(i) == { E[j].args[1] : j \in { x \in idx("iter.published") : x < i } }
+      \* what a consumer of the PV channel had already received (the hook of a published depth is recorded
+      \* when its goroutine passes the point, which a hold rule can delay; the consumer's receipt is direct)
+      recvBefore(i) == { E[j].args[1] : j \in { x \in idx("consumer.received") : x < i } }
       storedBefore(i) == { E[j].args[1] : j \in { x \in idx("iter.stored") : x < i } }
       calls == idx("halt.call")
       rets == idx("halt.return")
@@ -53,7 +56,7 @@ JudgeHalt(e) ==
   \cup Chk("c15.order", \A i \in 1..Len(pubs) : pubs[i] = i)
   \cup Chk("c15.halt-never-returns", Cardinality(rets) = Cardinality(calls))
   \cup Chk("c15.halt-depth1", \A r \in rets : E[r].args[2] >= 1)
-  \cup Chk("c15.halt-at-least-reported", \A r \in rets : \A d \in pubBefore(callOf(r)) : E[r].args[2] >= d)
+  \cup Chk("c15.halt-at-least-reported", \A r \in rets : \A d \in pubBefore(callOf(r)) \cup recvBefore(callOf(r)) : E[r].args[2] >= d)
   \cup Chk("c15.halt-completed", \A r \in rets : E[r].args[2] \in storedBefore(r))
   \cup Chk("c15.past-stop", \A i \in 1..Len(pubs) : (e.limit # 0 => pubs[i] <= e.limit) /\ (e.mate # 0 => pubs[i] <= e.mate))
 
